@@ -138,11 +138,6 @@ def run(chk, replay_case=None):
     smism = vlib.eval_mismatches("C06", HEADER, [case_term(c) for c in stream], case_type="fcase", shard=400) if stream else {}
     different = [i for i in sorted(smism, key=lambda i: size(stream[i])) if stream[i]["oracle"]]
     stale_variants = [i for i in smism if not stream[i]["oracle"]]
-    for i in different[:3]:
-        c = stream[i]
-        chk.violation("fence (inside the region of known finding %s, but NOT the listed failure): %s" % (c["pred"], c["oracle"]),
-                      {"case": slim(c), "expected_failing_outcome": "the model's (Fence/FenceCases.v check_case)",
-                       "model_disagreements": [CODES.get(e, str(e)) for e in smism[i]]}, True)
     for f in findings:
         rc = json.load(open(os.path.join(vlib.VERIF, f["replay"])))["case"]
         rp = chk.tmp("finding_%s.json" % f["id"])
@@ -178,6 +173,11 @@ def run(chk, replay_case=None):
         seen.add(cls)
         chk.violation("fence: " + c["oracle"], {"case": slim(c),
                                                  "model_disagreements": [CODES.get(e, str(e)) for e in mism.get(i, [])]}, True)
+    for i in different[:3]:
+        c = stream[i]
+        chk.violation("fence (inside the region of known finding %s, but NOT the listed failure): %s" % (c["pred"], c["oracle"]),
+                      {"case": slim(c), "expected_failing_outcome": "the model's (Fence/FenceCases.v check_case)",
+                       "model_disagreements": [CODES.get(e, str(e)) for e in smism[i]]}, True)
     for c in infra[:1]:
         if not oracle_fail:
             chk.violation("fence race could not be scheduled on the real code: " + c["infra"], {"case": slim(c)}, True)
@@ -226,7 +226,7 @@ def run(chk, replay_case=None):
         "delivery_outcomes": errs,
         "harness_seconds": round(secs, 1),
         "samples": [slim(c) for c in (cases[40:41] + [c for c in cases if c.get("race")][1000:1001] +
-                                       [c for c in cases if any(d["fault"] >= 0 for d in (c["hist"] or []))][200:201])] or [slim(cases[0])],
+                                       [c for c in cases if any(d["fault"] >= 0 for d in (c["hist"] or []))][200:201])] or [slim(c) for c in (cases + stream)[:1]],
     })
     chk.assumptions += ["the stand-in's transaction/lock semantics (snapshot overlay, key lock to end of transaction, failed COMMIT "
                         "applies nothing) stand for MySQL/InnoDB; gap-lock deadlocks are not modelled",
